@@ -114,7 +114,7 @@ func runC19(c *core.Ctx) {
 		name string
 	}
 	var ds []deleg
-	for _, n := range []string{"SortSlice", "SortOrdered", "SortOrderedAscending", "SortOrderedDescending", "SortBySortDescriptors"} {
+	for _, n := range []string{"SortSlice", "SortOrdered", "SortOrderedAscending", "SortOrderedDescending", "SortBySortDescriptors", "SortedListBySortDescriptors"} {
 		ds = append(ds, deleg{p.Func(p.Fpgo, n), n})
 	}
 	ds = append(ds, deleg{p.Method(p.Fpgo, "StreamDef", "Sort"), "StreamDef.Sort"}, deleg{p.Method(p.Fpgo, "StreamForInterfaceDef", "Sort"), "StreamForInterfaceDef.Sort"}, deleg{p.Method(p.Fpgo, "SortDescriptorsBuilder", "Sort"), "SortDescriptorsBuilder.Sort"})
@@ -124,8 +124,25 @@ func runC19(c *core.Ctx) {
 			continue
 		}
 		c.Analysed(core.FuncName(d.fn))
-		reach := core.Reachable(p, d.fn)[sortFn]
-		c.Check(reach, "R1", d.name+"/delegates", p.Pos(d.fn.Pos()), "reaches fpgo.Sort (the single stable sort)", d.name+" no longer sorts through fpgo.Sort")
+		// every path performs (at least) one call that leads to the single stable sort
+		reachSort := map[*ssa.Function]bool{}
+		leads := func(g *ssa.Function) bool {
+			if g == nil {
+				return false
+			}
+			if v, ok := reachSort[g]; ok {
+				return v
+			}
+			reachSort[g] = g == sortFn || core.Reachable(p, g)[sortFn]
+			return reachSort[g]
+		}
+		min, _ := core.PathCount(d.fn, func(ins ssa.Instruction) int {
+			if call, ok := ins.(*ssa.Call); ok && leads(core.Callee(&call.Call)) {
+				return 1
+			}
+			return 0
+		}, nil)
+		c.Check(min >= 1, "R1", d.name+"/delegates", p.Pos(d.fn.Pos()), "every path reaches fpgo.Sort (the single stable sort)", d.name+" has a path that does not sort through fpgo.Sort")
 	}
 	// ---- R2: SortOrdered closures
 	if so := p.Func(p.Fpgo, "SortOrdered"); so == nil || sortFn == nil {
@@ -466,6 +483,23 @@ func c19descriptor(p *core.Prog, f *ssa.Function, sign int64) (bool, string) {
 		}
 		if !known {
 			return false, "a CompareTo call is not selected by IsAscending()"
+		}
+		// the comparison is made for present keys: every nil test of a key on the way has the not-nil polarity
+		guards := core.EdgeCmps(cm.Block())
+		if via != nil {
+			guards = append(guards, core.EdgeCmps(via.Block())...)
+		}
+		for _, m := range guards {
+			if !core.IsNilConst(m.Y) {
+				continue
+			}
+			kk := keyOf(core.Unwrap(m.X))
+			if via != nil && kk < 0 {
+				kk = keyOfInF(core.Unwrap(m.X))
+			}
+			if kk >= 0 && m.Op == token.EQL {
+				return false, fmt.Sprintf("CompareTo is reached only when key%d is nil: keys that are present are never compared (every pair sorts as equal) and the call dereferences a nil key", kk+1)
+			}
 		}
 		recvK := keyOf(cm.Call.Value)
 		argK := -1
